@@ -27,8 +27,8 @@ VARIABLES gep,                       \* Global.epoch
           bag, queue,                \* local bags, global queue of sealed bags [ep, ts]
           alive,                     \* participant still linked in the registry
           pc, ret, reg, ip, tctx,    \* control: label, return stack, locals, program index, task context
-          ug, inst, act, st, ran     \* ghost: user guards, critical-section instance, active-at-defer, task state
-vars == <<gep, lep, lpin, gc, hc, coll, must, bag, queue, alive, pc, ret, reg, ip, tctx, ug, inst, act, st, ran>>
+          ug, inst, act, dep, st, ran \* ghost: user guards, critical-section instance, active-at-defer, epoch at deferral, task state
+vars == <<gep, lep, lpin, gc, hc, coll, must, bag, queue, alive, pc, ret, reg, ip, tctx, ug, inst, act, dep, st, ran>>
 
 NoReg == [e |-> 0, gc0 |-> 0, scan |-> {}, trials |-> 0, cur |-> <<>>, sole |-> FALSE]
 Init ==
@@ -37,7 +37,7 @@ Init ==
   /\ bag = [p \in P |-> <<>>] /\ queue = <<>> /\ alive = [p \in P |-> TRUE]
   /\ pc = [p \in P |-> "idle"] /\ ret = [p \in P |-> <<>>] /\ reg = [p \in P |-> NoReg]
   /\ ip = [p \in P |-> 1] /\ tctx = [p \in P |-> <<>>]
-  /\ ug = [p \in P |-> 0] /\ inst = [p \in P |-> 0] /\ act = [k \in Task |-> {}]
+  /\ ug = [p \in P |-> 0] /\ inst = [p \in P |-> 0] /\ act = [k \in Task |-> {}] /\ dep = [k \in Task |-> 0]
   /\ st = [k \in Task |-> "new"] /\ ran = [k \in Task |-> 0]
 
 Goto(p, l)   == pc' = [pc EXCEPT ![p] = l]
@@ -45,7 +45,7 @@ Goto(p, l)   == pc' = [pc EXCEPT ![p] = l]
 CallSub(p, entry, back) == pc' = [pc EXCEPT ![p] = entry] /\ ret' = [ret EXCEPT ![p] = <<back>> \o @]
 Return(p)    == pc' = [pc EXCEPT ![p] = Head(ret[p])] /\ ret' = [ret EXCEPT ![p] = Tail(@)]
 ActiveCS     == {<<q, inst[q]>> : q \in {r \in P : ug[r] > 0}}
-UAll         == UNCHANGED <<gep, lep, lpin, gc, hc, coll, must, bag, queue, alive, reg, ip, tctx, ug, inst, act, st, ran>>
+UAll         == UNCHANGED <<gep, lep, lpin, gc, hc, coll, must, bag, queue, alive, reg, ip, tctx, ug, inst, act, dep, st, ran>>
 
 ---------------------------------------------------------------------------
 \* the next call of p: from the deferred function it is running, or from its own program
@@ -60,7 +60,7 @@ Step(p)    == IF InTask(p) THEN tctx' = [tctx EXCEPT ![p] = <<[Head(@) EXCEPT !.
 CallPin(p) ==      \* Guard creation
   /\ HasCall(p) /\ TheCall(p) = "pin" /\ Step(p)
   /\ CallSub(p, "pin0", "pin_done")
-  /\ UNCHANGED <<gep, lep, lpin, gc, hc, coll, must, bag, queue, alive, reg, ug, inst, act, st, ran>>
+  /\ UNCHANGED <<gep, lep, lpin, gc, hc, coll, must, bag, queue, alive, reg, ug, inst, act, dep, st, ran>>
 PinDone(p) ==      \* the guard exists: the critical section (instance) is active from here
   /\ pc[p] = "pin_done"
   /\ ug' = [ug EXCEPT ![p] = @ + 1]
@@ -68,16 +68,16 @@ PinDone(p) ==      \* the guard exists: the critical section (instance) is activ
   \*  configs with Loop # {} do not check C13)
   /\ inst' = IF ug[p] = 0 /\ p \notin Loop THEN [inst EXCEPT ![p] = @ + 1] ELSE inst
   /\ Goto(p, "idle")
-  /\ UNCHANGED <<gep, lep, lpin, gc, hc, coll, must, bag, queue, alive, ret, reg, ip, tctx, act, st, ran>>
+  /\ UNCHANGED <<gep, lep, lpin, gc, hc, coll, must, bag, queue, alive, ret, reg, ip, tctx, act, dep, st, ran>>
 CallUnpin(p) ==    \* Guard drop: the user stops relying on the guard when the call starts
   /\ HasCall(p) /\ TheCall(p) = "unpin" /\ ug[p] > 0 /\ Step(p)
   /\ ug' = [ug EXCEPT ![p] = @ - 1]
   /\ CallSub(p, "unpin0", "idle")
-  /\ UNCHANGED <<gep, lep, lpin, gc, hc, coll, must, bag, queue, alive, reg, inst, act, st, ran>>
+  /\ UNCHANGED <<gep, lep, lpin, gc, hc, coll, must, bag, queue, alive, reg, inst, act, dep, st, ran>>
 CallDefer(p) ==    \* Guard::defer_unchecked -> Local::defer (internal.rs:348-357)
   /\ HasCall(p) /\ TheCall(p) = "defer" /\ gc[p] > 0 /\ Step(p)
   /\ \E k \in Task : /\ st[k] = "new" /\ \A j \in Task : st[j] = "new" => j >= k
-       /\ act' = [act EXCEPT ![k] = ActiveCS]
+       /\ act' = [act EXCEPT ![k] = ActiveCS] /\ dep' = [dep EXCEPT ![k] = gep]
        /\ st' = [st EXCEPT ![k] = "bag"]
        /\ reg' = [reg EXCEPT ![p].cur = <<k>>]
   /\ IF Len(bag[p]) >= Cap THEN CallSub(p, "push0", "defer_sched") ELSE Goto(p, "defer_put") /\ UNCHANGED ret
@@ -86,28 +86,28 @@ DeferSched(p) ==   \* schedule_collection after a full bag was pushed (internal.
   /\ pc[p] = "defer_sched"
   /\ must' = [must EXCEPT ![p] = TRUE]
   /\ IF coll[p] /\ ("repin_sole" \notin Fix \/ gc[p] = 1) THEN CallSub(p, "repin0", "defer_put") ELSE Goto(p, "defer_put") /\ UNCHANGED ret
-  /\ UNCHANGED <<gep, lep, lpin, gc, hc, coll, bag, queue, alive, reg, ip, tctx, ug, inst, act, st, ran>>
+  /\ UNCHANGED <<gep, lep, lpin, gc, hc, coll, bag, queue, alive, reg, ip, tctx, ug, inst, act, dep, st, ran>>
 DeferPut(p) ==
   /\ pc[p] = "defer_put"
   /\ bag' = [bag EXCEPT ![p] = Append(@, Head(reg[p].cur))]
   /\ Goto(p, "idle")
-  /\ UNCHANGED <<gep, lep, lpin, gc, hc, coll, must, queue, alive, ret, reg, ip, tctx, ug, inst, act, st, ran>>
+  /\ UNCHANGED <<gep, lep, lpin, gc, hc, coll, must, queue, alive, ret, reg, ip, tctx, ug, inst, act, dep, st, ran>>
 CallFlush(p) ==    \* Guard::flush -> Local::flush (359-377)
   /\ HasCall(p) /\ TheCall(p) = "flush" /\ gc[p] > 0 /\ Step(p)
   /\ IF bag[p] # <<>> THEN CallSub(p, "push0", "flush_sched") ELSE Goto(p, "flush_sched") /\ UNCHANGED ret
-  /\ UNCHANGED <<gep, lep, lpin, gc, hc, coll, must, bag, queue, alive, reg, ug, inst, act, st, ran>>
+  /\ UNCHANGED <<gep, lep, lpin, gc, hc, coll, must, bag, queue, alive, reg, ug, inst, act, dep, st, ran>>
 FlushSched(p) ==
   /\ pc[p] = "flush_sched"
   /\ must' = [must EXCEPT ![p] = TRUE]
   /\ IF coll[p] /\ ("repin_sole" \notin Fix \/ gc[p] = 1) THEN CallSub(p, "repin0", "idle") ELSE Goto(p, "idle") /\ UNCHANGED ret
-  /\ UNCHANGED <<gep, lep, lpin, gc, hc, coll, bag, queue, alive, reg, ip, tctx, ug, inst, act, st, ran>>
+  /\ UNCHANGED <<gep, lep, lpin, gc, hc, coll, bag, queue, alive, reg, ip, tctx, ug, inst, act, dep, st, ran>>
 CallReact(p) ==    \* Guard::reactivate -> Local::repin (guard.rs:96-100, internal.rs:482-488)
   /\ HasCall(p) /\ TheCall(p) = "react" /\ ug[p] > 0 /\ Step(p)
   /\ reg' = [reg EXCEPT ![p].sole = (ug[p] = 1)]
   /\ ug' = IF ug[p] = 1 THEN [ug EXCEPT ![p] = 0] ELSE ug          \* a sole guard's critical section ends here
   /\ hc' = [hc EXCEPT ![p] = @ + 1]
   /\ CallSub(p, "unpin0", "react_pin")
-  /\ UNCHANGED <<gep, lep, lpin, gc, coll, must, bag, queue, alive, inst, act, st, ran>>
+  /\ UNCHANGED <<gep, lep, lpin, gc, coll, must, bag, queue, alive, inst, act, dep, st, ran>>
 ReactPin(p) == /\ pc[p] = "react_pin" /\ CallSub(p, "pin0", "react_done") /\ UAll
 ReactDone(p) ==
   /\ pc[p] = "react_done"
@@ -115,16 +115,16 @@ ReactDone(p) ==
   /\ ug' = IF reg[p].sole THEN [ug EXCEPT ![p] = 1] ELSE ug
   /\ inst' = IF reg[p].sole THEN [inst EXCEPT ![p] = @ + 1] ELSE inst
   /\ Goto(p, "idle")
-  /\ UNCHANGED <<gep, lep, lpin, gc, coll, must, bag, queue, alive, ret, reg, ip, tctx, act, st, ran>>
+  /\ UNCHANGED <<gep, lep, lpin, gc, coll, must, bag, queue, alive, ret, reg, ip, tctx, act, dep, st, ran>>
 CallAdvance(p) ==  \* a direct try_advance (incr_advance every 64 deferrals, internal.rs:379-386)
   /\ HasCall(p) /\ TheCall(p) = "advance" /\ gc[p] > 0 /\ Step(p)
   /\ CallSub(p, "adv0", "idle")
-  /\ UNCHANGED <<gep, lep, lpin, gc, hc, coll, must, bag, queue, alive, reg, ug, inst, act, st, ran>>
+  /\ UNCHANGED <<gep, lep, lpin, gc, hc, coll, must, bag, queue, alive, reg, ug, inst, act, dep, st, ran>>
 CallHDrop(p) ==    \* LocalHandle::drop -> release_handle (513-524)
   /\ HasCall(p) /\ TheCall(p) = "hdrop" /\ hc[p] >= 1 /\ Step(p)
   /\ hc' = [hc EXCEPT ![p] = @ - 1]
   /\ IF gc[p] = 0 /\ hc[p] = 1 THEN CallSub(p, "fin0", "idle") ELSE Goto(p, "idle") /\ UNCHANGED ret
-  /\ UNCHANGED <<gep, lep, lpin, gc, coll, must, bag, queue, alive, reg, ug, inst, act, st, ran>>
+  /\ UNCHANGED <<gep, lep, lpin, gc, coll, must, bag, queue, alive, reg, ug, inst, act, dep, st, ran>>
 
 ---------------------------------------------------------------------------
 \* Local::pin (internal.rs:390-452)
@@ -132,22 +132,22 @@ Pin0(p) ==
   /\ pc[p] = "pin0"
   /\ gc' = [gc EXCEPT ![p] = @ + 1]
   /\ IF gc[p] = 0 THEN Goto(p, "pin_read") /\ UNCHANGED ret ELSE Return(p)
-  /\ UNCHANGED <<gep, lep, lpin, hc, coll, must, bag, queue, alive, reg, ip, tctx, ug, inst, act, st, ran>>
+  /\ UNCHANGED <<gep, lep, lpin, hc, coll, must, bag, queue, alive, reg, ip, tctx, ug, inst, act, dep, st, ran>>
 PinRead(p) ==
   /\ pc[p] = "pin_read" /\ reg' = [reg EXCEPT ![p].e = gep] /\ Goto(p, "pin_pub")
-  /\ UNCHANGED <<gep, lep, lpin, gc, hc, coll, must, bag, queue, alive, ret, ip, tctx, ug, inst, act, st, ran>>
+  /\ UNCHANGED <<gep, lep, lpin, gc, hc, coll, must, bag, queue, alive, ret, ip, tctx, ug, inst, act, dep, st, ran>>
 PinPublish(p) ==
   /\ pc[p] = "pin_pub" /\ lep' = [lep EXCEPT ![p] = reg[p].e] /\ lpin' = [lpin EXCEPT ![p] = TRUE]
   /\ Goto(p, "pin_val")
-  /\ UNCHANGED <<gep, gc, hc, coll, must, bag, queue, alive, ret, reg, ip, tctx, ug, inst, act, st, ran>>
+  /\ UNCHANGED <<gep, gc, hc, coll, must, bag, queue, alive, ret, reg, ip, tctx, ug, inst, act, dep, st, ran>>
 PinValidate(p) ==   \* the re-validation this EBR adds to crossbeam's pin (438-441)
   /\ pc[p] = "pin_val"
   /\ IF reg[p].e = gep \/ "PinNoRevalidate" \in Mut \/ ("PinLagOne" \in Mut /\ reg[p].e + 1 = gep)
        THEN Return(p) ELSE Goto(p, "pin_reset") /\ UNCHANGED ret
-  /\ UNCHANGED <<gep, lep, lpin, gc, hc, coll, must, bag, queue, alive, reg, ip, tctx, ug, inst, act, st, ran>>
+  /\ UNCHANGED <<gep, lep, lpin, gc, hc, coll, must, bag, queue, alive, reg, ip, tctx, ug, inst, act, dep, st, ran>>
 PinReset(p) ==
   /\ pc[p] = "pin_reset" /\ lpin' = [lpin EXCEPT ![p] = FALSE] /\ Goto(p, "pin_read")
-  /\ UNCHANGED <<gep, lep, gc, hc, coll, must, bag, queue, alive, ret, reg, ip, tctx, ug, inst, act, st, ran>>
+  /\ UNCHANGED <<gep, lep, gc, hc, coll, must, bag, queue, alive, ret, reg, ip, tctx, ug, inst, act, dep, st, ran>>
 
 \* Local::unpin (456-478)
 Unpin0(p) ==
@@ -156,23 +156,23 @@ Unpin0(p) ==
   /\ IF (gc[p] = 1 \/ "UnpinInnerCollects" \in Mut) /\ ~coll[p]
        THEN coll' = [coll EXCEPT ![p] = TRUE] /\ Goto(p, "uc_loop")
        ELSE UNCHANGED coll /\ Goto(p, "unpin_dec")
-  /\ UNCHANGED <<gep, lep, lpin, gc, hc, must, bag, queue, alive, ret, ip, tctx, ug, inst, act, st, ran>>
+  /\ UNCHANGED <<gep, lep, lpin, gc, hc, must, bag, queue, alive, ret, ip, tctx, ug, inst, act, dep, st, ran>>
 UcLoop(p) ==
   /\ pc[p] = "uc_loop"
   /\ IF must[p]
        THEN must' = [must EXCEPT ![p] = FALSE] /\ CallSub(p, "adv0", "col_pop") /\ reg' = [reg EXCEPT ![p].trials = 0] /\ UNCHANGED coll
        ELSE coll' = [coll EXCEPT ![p] = FALSE] /\ Goto(p, "unpin_dec") /\ UNCHANGED <<must, ret, reg>>
-  /\ UNCHANGED <<gep, lep, lpin, gc, hc, bag, queue, alive, ip, tctx, ug, inst, act, st, ran>>
+  /\ UNCHANGED <<gep, lep, lpin, gc, hc, bag, queue, alive, ip, tctx, ug, inst, act, dep, st, ran>>
 UnpinDec(p) ==     \* writes back the count read before the collection (470)
   /\ pc[p] = "unpin_dec"
   /\ gc' = [gc EXCEPT ![p] = reg[p].gc0 - 1]
   /\ IF reg[p].gc0 = 1 \/ "UnpinInnerClears" \in Mut THEN Goto(p, "unpin_store") /\ UNCHANGED ret ELSE Return(p)
-  /\ UNCHANGED <<gep, lep, lpin, hc, coll, must, bag, queue, alive, reg, ip, tctx, ug, inst, act, st, ran>>
+  /\ UNCHANGED <<gep, lep, lpin, hc, coll, must, bag, queue, alive, reg, ip, tctx, ug, inst, act, dep, st, ran>>
 UnpinStore(p) ==
   /\ pc[p] = "unpin_store"
   /\ lpin' = [lpin EXCEPT ![p] = FALSE]
   /\ IF hc[p] = 0 THEN Goto(p, "fin0") /\ UNCHANGED ret ELSE Return(p)
-  /\ UNCHANGED <<gep, lep, gc, hc, coll, must, bag, queue, alive, reg, ip, tctx, ug, inst, act, st, ran>>
+  /\ UNCHANGED <<gep, lep, gc, hc, coll, must, bag, queue, alive, reg, ip, tctx, ug, inst, act, dep, st, ran>>
 
 \* Global::collect (185-208)
 ColPop(p) ==       \* try_pop_if(is_expired): pops the head only if it is >= Expire epochs old
@@ -181,7 +181,7 @@ ColPop(p) ==       \* try_pop_if(is_expired): pops the head only if it is >= Exp
        THEN /\ reg' = [reg EXCEPT ![p].cur = Head(queue).ts, ![p].trials = @ + 1]
             /\ queue' = Tail(queue) /\ Goto(p, "run")
        ELSE /\ UNCHANGED <<reg, queue>> /\ Goto(p, "uc_repin")
-  /\ UNCHANGED <<gep, lep, lpin, gc, hc, coll, must, bag, alive, ret, ip, tctx, ug, inst, act, st, ran>>
+  /\ UNCHANGED <<gep, lep, lpin, gc, hc, coll, must, bag, alive, ret, ip, tctx, ug, inst, act, dep, st, ran>>
 Run(p) ==          \* Bag::drop calls every deferred function (105-112)
   /\ pc[p] = "run"
   /\ IF reg[p].cur = <<>> THEN Goto(p, "col_pop") /\ UNCHANGED <<reg, tctx, st, ran>>
@@ -190,30 +190,30 @@ Run(p) ==          \* Bag::drop calls every deferred function (105-112)
           /\ ran' = [ran EXCEPT ![k] = @ + 1] /\ st' = [st EXCEPT ![k] = "done"]
           /\ tctx' = [tctx EXCEPT ![p] = <<[k |-> k, ip |-> 1, saved |-> reg[p].cur]>> \o @]
           /\ Goto(p, "idle")
-  /\ UNCHANGED <<gep, lep, lpin, gc, hc, coll, must, bag, queue, alive, ret, ip, ug, inst, act>>
+  /\ UNCHANGED <<gep, lep, lpin, gc, hc, coll, must, bag, queue, alive, ret, ip, ug, inst, act, dep>>
 TaskEnd(p) ==      \* the deferred function returns
   /\ pc[p] = "idle" /\ InTask(p) /\ CurIp(p) > Len(CurProg(p))
   /\ reg' = [reg EXCEPT ![p].cur = Tail(Head(tctx[p]).saved)]
   /\ tctx' = [tctx EXCEPT ![p] = Tail(@)]
   /\ Goto(p, "run")
-  /\ UNCHANGED <<gep, lep, lpin, gc, hc, coll, must, bag, queue, alive, ret, ip, ug, inst, act, st, ran>>
+  /\ UNCHANGED <<gep, lep, lpin, gc, hc, coll, must, bag, queue, alive, ret, ip, ug, inst, act, dep, st, ran>>
 UcRepin(p) ==      \* repin_without_collect after each collect (465)
   /\ pc[p] = "uc_repin" /\ CallSub(p, "repin0", "uc_loop") /\ UAll
 
 \* Local::repin_without_collect (492-503)
 Repin0(p) ==
   /\ pc[p] = "repin0" /\ reg' = [reg EXCEPT ![p].e = gep] /\ Goto(p, "repin1")
-  /\ UNCHANGED <<gep, lep, lpin, gc, hc, coll, must, bag, queue, alive, ret, ip, tctx, ug, inst, act, st, ran>>
+  /\ UNCHANGED <<gep, lep, lpin, gc, hc, coll, must, bag, queue, alive, ret, ip, tctx, ug, inst, act, dep, st, ran>>
 Repin1(p) ==
   /\ pc[p] = "repin1" /\ lep' = [lep EXCEPT ![p] = reg[p].e] /\ Return(p)
-  /\ UNCHANGED <<gep, lpin, gc, hc, coll, must, bag, queue, alive, reg, ip, tctx, ug, inst, act, st, ran>>
+  /\ UNCHANGED <<gep, lpin, gc, hc, coll, must, bag, queue, alive, reg, ip, tctx, ug, inst, act, dep, st, ran>>
 
 \* Global::try_advance (219-257)
 Adv0(p) ==
   /\ pc[p] = "adv0"
   /\ reg' = [reg EXCEPT ![p].e = gep, ![p].scan = {q \in P : alive[q]} \ (IF "AdvanceSkipsSelf" \in Mut THEN {p} ELSE {})]
   /\ Goto(p, "adv_scan")
-  /\ UNCHANGED <<gep, lep, lpin, gc, hc, coll, must, bag, queue, alive, ret, ip, tctx, ug, inst, act, st, ran>>
+  /\ UNCHANGED <<gep, lep, lpin, gc, hc, coll, must, bag, queue, alive, ret, ip, tctx, ug, inst, act, dep, st, ran>>
 AdvScan(p) ==
   /\ pc[p] = "adv_scan"
   /\ IF reg[p].scan = {} THEN Goto(p, "adv_store") /\ UNCHANGED <<reg, ret>>
@@ -221,30 +221,30 @@ AdvScan(p) ==
             IF lpin[q] /\ lep[q] # reg[p].e /\ "AdvanceIgnoresPinned" \notin Mut
             THEN Return(p) /\ UNCHANGED reg
             ELSE reg' = [reg EXCEPT ![p].scan = @ \ {q}] /\ UNCHANGED <<pc, ret>>
-  /\ UNCHANGED <<gep, lep, lpin, gc, hc, coll, must, bag, queue, alive, ip, tctx, ug, inst, act, st, ran>>
+  /\ UNCHANGED <<gep, lep, lpin, gc, hc, coll, must, bag, queue, alive, ip, tctx, ug, inst, act, dep, st, ran>>
 AdvStore(p) ==
   /\ pc[p] = "adv_store" /\ reg[p].e < MaxEp
   /\ gep' = reg[p].e + (IF "AdvanceBy2" \in Mut THEN 2 ELSE 1)
   /\ Return(p)
-  /\ UNCHANGED <<lep, lpin, gc, hc, coll, must, bag, queue, alive, reg, ip, tctx, ug, inst, act, st, ran>>
+  /\ UNCHANGED <<lep, lpin, gc, hc, coll, must, bag, queue, alive, reg, ip, tctx, ug, inst, act, dep, st, ran>>
 AdvGiveUp(p) ==    \* (bounded model) the epoch bound of the config is reached
   /\ pc[p] = "adv_store" /\ reg[p].e >= MaxEp /\ Return(p) /\ UAll
 
 \* Global::push_bag (168-175)
 Push0(p) ==
   /\ pc[p] = "push0" /\ reg' = [reg EXCEPT ![p].e = IF "SealEarly" \in Mut THEN lep[p] ELSE gep] /\ Goto(p, "push1")
-  /\ UNCHANGED <<gep, lep, lpin, gc, hc, coll, must, bag, queue, alive, ret, ip, tctx, ug, inst, act, st, ran>>
+  /\ UNCHANGED <<gep, lep, lpin, gc, hc, coll, must, bag, queue, alive, ret, ip, tctx, ug, inst, act, dep, st, ran>>
 Push1(p) ==
   /\ pc[p] = "push1"
   /\ queue' = Append(queue, [ep |-> reg[p].e, ts |-> bag[p]])
   /\ bag' = [bag EXCEPT ![p] = <<>>]
   /\ Return(p)
-  /\ UNCHANGED <<gep, lep, lpin, gc, hc, coll, must, alive, reg, ip, tctx, ug, inst, act, st, ran>>
+  /\ UNCHANGED <<gep, lep, lpin, gc, hc, coll, must, alive, reg, ip, tctx, ug, inst, act, dep, st, ran>>
 
 \* Local::finalize (526-558): pin, hand the bag over, unpin, unlink
 Fin0(p) ==
   /\ pc[p] = "fin0" /\ hc' = [hc EXCEPT ![p] = 1] /\ CallSub(p, "pin0", "fin1")
-  /\ UNCHANGED <<gep, lep, lpin, gc, coll, must, bag, queue, alive, reg, ip, tctx, ug, inst, act, st, ran>>
+  /\ UNCHANGED <<gep, lep, lpin, gc, coll, must, bag, queue, alive, reg, ip, tctx, ug, inst, act, dep, st, ran>>
 Fin1(p) ==
   /\ pc[p] = "fin1"
   /\ IF bag[p] # <<>> /\ "FinalizeDropsBag" \notin Mut THEN CallSub(p, "push0", "fin2") ELSE Goto(p, "fin2") /\ UNCHANGED ret
@@ -252,12 +252,12 @@ Fin1(p) ==
 Fin2(p) == /\ pc[p] = "fin2" /\ CallSub(p, "unpin0", "fin3") /\ UAll
 Fin3(p) ==
   /\ pc[p] = "fin3" /\ hc' = [hc EXCEPT ![p] = 0] /\ alive' = [alive EXCEPT ![p] = FALSE] /\ Return(p)
-  /\ UNCHANGED <<gep, lep, lpin, gc, coll, must, bag, queue, reg, ip, tctx, ug, inst, act, st, ran>>
+  /\ UNCHANGED <<gep, lep, lpin, gc, coll, must, bag, queue, reg, ip, tctx, ug, inst, act, dep, st, ran>>
 
 Restart(p) ==
   /\ p \in Loop /\ pc[p] = "idle" /\ ~InTask(p) /\ ip[p] > Len(Prog[p])
   /\ ip' = [ip EXCEPT ![p] = 1]
-  /\ UNCHANGED <<gep, lep, lpin, gc, hc, coll, must, bag, queue, alive, pc, ret, reg, tctx, ug, inst, act, st, ran>>
+  /\ UNCHANGED <<gep, lep, lpin, gc, hc, coll, must, bag, queue, alive, pc, ret, reg, tctx, ug, inst, act, dep, st, ran>>
 PStep(p) ==
   \/ Restart(p)
   \/ CallPin(p) \/ PinDone(p) \/ CallUnpin(p) \/ CallDefer(p) \/ DeferSched(p) \/ DeferPut(p)
